@@ -38,6 +38,8 @@ def cases(tier, seed):
         yield {"fam": "huge_labels", "i": i}
     for i in range(18 if tier == "quick" else 180):
         yield {"fam": "bigvol", "i": i}
+    for i in range(12 if tier == "quick" else 120):
+        yield {"fam": "manycomp", "i": i}
 
 
 def setup(ctx):
@@ -92,8 +94,15 @@ def run(case, ctx):
     if fam == "huge_labels":
         r = gen.rng(ctx.seed, "c11huge", i)
         dtype = [np.uint32, np.uint64][i % 2]
-        pl = [int(x) for x in r.choice(np.arange(2**24, 2**24 + 2**20), size=3, replace=False)]
-        rl = [int(x) for x in r.choice(np.arange(2**24, 2**24 + 2**20), size=3, replace=False)]
+        base = [2**24, 2**25][(i // 2) % 2]
+        pool = [int(x) for x in r.choice(np.arange(base, base + 2**20), size=4, replace=False)]
+        if i % 3 == 0:
+            # prediction and reference use the same few values, in another order (renaming chains: a -> b, b -> c)
+            pl, rl = [pool[1], pool[2], pool[0]], [pool[0], pool[1], pool[2]]
+            ctx.count("f:family.huge_labels_shared_between_sides")
+        else:
+            pl = pool[:3]
+            rl = [int(x) for x in r.choice(np.arange(base, base + 2**20), size=3, replace=False)]
         refa = np.zeros(30, dtype=dtype)
         pred = np.zeros(30, dtype=dtype)
         for k in range(3):  # overlaps of different quality, so that score order and label order disagree
@@ -104,6 +113,26 @@ def run(case, ctx):
         a = judge(ctx, pred, refa, cfg)
         if a:
             ctx.nontrivial(gen.arr_key(pred, refa), cfg)
+        return
+    if fam == "manycomp":
+        # semantic maps with about 256 components on one side only (or on both): the dtype that holds the component
+        # numbers must come from both sides
+        n_ref = int([3, 256, 255, 300, 257, 2][i % 6])
+        n_pred = int([256, 3, 300, 255, 2, 258][i % 6])
+        n = 2 * max(n_ref, n_pred) + 4
+        refa = np.zeros(n, dtype=[np.uint8, np.int32][i % 2])
+        pred = np.zeros_like(refa)
+        refa[1 : 2 * n_ref : 2] = 1
+        pred[1 : 2 * n_pred : 2] = 1
+        if i % 3 == 2:
+            refa, pred = np.stack([refa, refa * 0]), np.stack([pred, pred * 0])
+        cfg = {"input": "SEMANTIC", "backend": [None, "cc3d", "scipy"][(i // 2) % 3], "matcher": {"kind": "naive", "metric": "IOU", "thr": 0.5, "m2o": False}}
+        ctx.count("f:family.many_components_one_side")
+        a = judge(ctx, pred, refa, cfg)
+        if a:
+            ctx.nontrivial(gen.arr_key(pred, refa), cfg)
+            if a["num_ref_instances"] != n_ref or a["num_pred_instances"] != n_pred:
+                ctx.viol("fp_fn_not_exchanged", {"cfg": cfg, "expected_instances": [n_ref, n_pred], "reported": [a["num_ref_instances"], a["num_pred_instances"]]}, features={"input": "SEMANTIC", "kind": "many_components"})
         return
     if fam == "bigvol":
         pred, refa = gen.big_volume_pair(ctx.seed, i, ctx.tier)
